@@ -1,0 +1,12 @@
+//go:build !verif
+
+// Package verifhook provides named instrumentation points for runtime
+// verification. Without the "verif" build tag every function in this package
+// is an empty, inlinable no-op.
+package verifhook
+
+// Enabled reports whether the package was built with the verif tag.
+const Enabled = false
+
+// Point marks a named instrumentation point reached by the given member.
+func Point(member, name string) {}
